@@ -18,7 +18,7 @@ CONSTANTS
 """
 HS = os.path.join(vlib.HARNESS, "signer")
 CHUNK = 40000          # events per TLC trace-validation run
-CONFIRM_MAX = 300      # rejected cases re-executed before they are reported
+CONFIRM_MAX = 60       # rejected cases re-executed before they are reported
 
 
 def build(prop):
@@ -165,16 +165,20 @@ def judge(prop, verdict, sbin, bbin, traces, label, stats):
             sel = [ti for ti in todo if ((traces[ti][0].get("info") or {}).get("via") == "tls") == (mode == "c18")]
             if not sel:
                 continue
-            ts, _ = run_signer(prop, sbin, wd, {"mode": mode, "cases": [], "random": 0, "n0": False, "lanes": 1, "tryms": 3000,
+            ts, _ = run_signer(prop, sbin, wd, {"mode": mode, "cases": [], "random": 0, "n0": False, "lanes": 4, "tryms": 2000,
                                                  "replays": [case_of(traces[ti]) for ti in sel]}, "confirm_" + mode)
             sanity(ts)
             rej2, _ = tlc_judge(prop, ts, label + "_confirm_" + mode)
             f2 = {}
-            for (ti, li) in rej2:
-                f2.setdefault(ti, li)
+            for (tj, li) in rej2:
+                f2.setdefault(ts[tj][0]["tid"], li)
+            bytid = {t[0]["tid"]: t for t in ts}
             for j, ti in enumerate(sel):
-                if j in f2:
-                    confirmed.append((ts[j], f2[j]))
+                tid = "p%d" % j
+                if tid not in bytid:
+                    raise NoVerdict("re-execution lost case %s" % tid)
+                if tid in f2:
+                    confirmed.append((bytid[tid], f2[tid]))
                 else:
                     stats["flaky"] += 1
                     log("not reproduced on re-execution (timing), discarded: %s" % vkey(traces[ti], first[ti]))
